@@ -40,7 +40,8 @@ pub fn run(args: &[String]) -> i32 {
     // "ratio" mode: one process with a 64 MiB limit and very compressible multi-MiB payloads (a block may expand by
     // more than 1000:1 and still be far below the allocation limit)
     let ratio = args.get(3).map(|s| s == "ratio").unwrap_or(false);
-    let lim = apache_avro::util::max_allocation_bytes(if ratio { 64 << 20 } else { 256 * 1024 });
+    // (the thorough tier has a 950 KB payload: the limit must admit it)
+    let lim = apache_avro::util::max_allocation_bytes(if ratio { 64 << 20 } else if thorough { 2 << 20 } else { 256 * 1024 });
     let mut out = Out::new(dir);
     crate::util::watchdog(dir, 900000);
     let mut rng = Rng::new(seed);
